@@ -60,6 +60,10 @@ func (d *Decoder) read(buf []byte) {
 	if d.err != nil {
 		return
 	}
+	if len(buf) == 0 {
+		// nothing to read. bytes.Reader returns io.EOF for empty reads at the end of data, it's not an error for us
+		return
+	}
 
 	n, err := d.buf.Read(buf)
 	if err != nil {
